@@ -7,6 +7,8 @@ use noodles_sam::header::ReferenceSequences;
 use self::reference_sequence::read_reference_sequence;
 use crate::io::reader::num::read_u32_le;
 
+const MAX_PREALLOCATED_REFERENCE_SEQUENCE_COUNT: usize = 1 << 12;
+
 pub(super) fn read_reference_sequences<R>(reader: &mut R) -> io::Result<ReferenceSequences>
 where
     R: Read,
@@ -15,7 +17,10 @@ where
         usize::try_from(n).map_err(|e| io::Error::new(io::ErrorKind::InvalidData, e))
     })?;
 
-    let mut reference_sequences = ReferenceSequences::with_capacity(n_ref);
+    // The reference sequence count is not yet validated, i.e., the dictionary grows as entries are
+    // read when the count is large.
+    let mut reference_sequences =
+        ReferenceSequences::with_capacity(n_ref.min(MAX_PREALLOCATED_REFERENCE_SEQUENCE_COUNT));
 
     for _ in 0..n_ref {
         let (name, reference_sequence) = read_reference_sequence(reader)?;
